@@ -537,8 +537,19 @@ func c05StreamCase(c *EnumCtx, spec protoSpec, alphabet []mmsg, sq []int) {
 		rd := &memRW{r: &chunkReader{b: stream, sizes: sizes}}
 		// the socket layer puts a bufio.Reader in front of the protocol; both paths are legal
 		pr := spec.pf(rd)
+		var kept []socket.Message
+		defer func() {
+			// messages decoded earlier must still hold their own data after later frames were decoded
+			for k, in := range kept {
+				if d := sameMsg(expectOf(alphabet[sq[k]]), extract(in)); d != "" {
+					c.Fail(spec.name+": a decoded message changed while later frames were decoded ("+what+"): "+fieldOf(d), fmt.Sprintf("%s chunks=%v frame#%d", name, sizes, k), d)
+					return
+				}
+			}
+		}()
 		for k, i := range sq {
 			in := socket.NewMessage(socket.WithNewBody(func(socket.Header) interface{} { return new([]byte) }))
+			kept = append(kept, in)
 			if err := pr.Unpack(in); err != nil {
 				c.Fail(spec.name+": stream loses frame sync ("+what+")", fmt.Sprintf("%s chunks=%v frame#%d", name, sizes, k), err.Error())
 				return
